@@ -4,8 +4,8 @@
    real C++ on every check (see prop.py). *)
 From Coq Require Import ZArith List Bool Permutation.
 From MomoCommon Require Import GenPrelude.
-From C08 Require Gen_GrowCapacity Gen_ArrayBucket Gen_ArrayBucket_cnt Gen_ArrayBucket_s Gen_HashMultiMap.
-From C08 Require Import ArrayBucketModel GenRefine MultiMapModel WrapperModel VersionModel Examples.
+From C08 Require Gen_GrowCapacity Gen_ArrayBucket Gen_ArrayBucket_cnt Gen_ArrayBucket_s Gen_HashMultiMap Gen_VersionCheck Gen_VersionCheck_a Gen_WrapEq Gen_WrapErase.
+From C08 Require Import GenWrapPrims ArrayBucketModel GenRefine GenWrapRefine MultiMapModel WrapperModel VersionModel Examples.
 Import ListNotations.
 Local Open Scope Z_scope.
 
@@ -492,3 +492,72 @@ Theorem C08_model_counts_via_generated :
   (snd (fst (vstep1 M c OClear)), vver (vstep1 M c OClear)) = Gen_HashMultiMap.Clear false (snd m) (vver c) 0 false.
 Proof. exact model_counts_via_generated. Qed.
 Print Assumptions C08_model_counts_via_generated.
+
+(* ------------------------------------------------------------------ grow round 3: generated wrapper operator== / erase, version check *)
+(* the REAL unordered_multimap::operator== (regenerated from unordered_multimap.h), with its primitives interpreted over two
+   model containers (key objects (id, tag) encoded as id*B + tag), IS the hand model's w_eq -- so every theorem about w_eq
+   (C08_wrapper_eq_iff_keyed_pairs_permutation ...) is a theorem about the generated code.  Reverting 7146119 (key-count
+   quick reject) or 4339d66 (key == test) changes Gen_WrapEq.v and breaks this lemma. *)
+Theorem C08_gen_wrapper_eq_refines :
+  forall (l r : mm) (B : Z),
+  (forall e, In e (fst l) \/ In e (fst r) -> 0 <= etag e < B /\ 0 <= ekey e) ->
+  NoDup (keys (fst l)) -> NoDup (keys (fst r)) ->
+  gen_eq l r B = w_eq l r.
+Proof. exact gen_wrap_eq_refines. Qed.
+Print Assumptions C08_gen_wrapper_eq_refines.
+
+(* the REAL unordered_multimap::erase(first, last), for EVERY interpretation of its primitives: *)
+(* ... the equal_range of a key removes that key and never clears the container, even if first == begin() and last == end()
+   (8a385f6, second defect) *)
+Theorem C08_gen_wrapper_erase_whole_key_never_clears :
+  forall (it_eqb it_neqb : Z -> Z -> bool) (it_end it_begin : Z) (it_next ev_clear key_of key_count : Z -> Z)
+         (mm_make : Z -> Z -> Z) (remove_key remove_value : Z -> Z) (st first last : Z),
+  it_eqb first last = false -> it_neqb first it_end = true -> it_eqb (it_next first) last = false ->
+  it_eqb first (mm_make (key_of first) 0) = true ->
+  it_eqb last (mm_make (key_of first) (key_count (key_of first))) = true ->
+  Gen_WrapErase.erase_range it_eqb it_neqb it_end it_begin it_next ev_clear key_of key_count mm_make remove_key remove_value st first last
+  = Ok (mm_make (remove_key (key_of first)) 0, st).
+Proof. exact gen_erase_range_whole_key_never_clears. Qed.
+Print Assumptions C08_gen_wrapper_erase_whole_key_never_clears.
+
+(* ... a longer range that does not start at the first value of its key never removes a key: whole container or
+   std::invalid_argument (8a385f6, first defect) *)
+Theorem C08_gen_wrapper_erase_mid_key_start :
+  forall (it_eqb it_neqb : Z -> Z -> bool) (it_end it_begin : Z) (it_next ev_clear key_of key_count : Z -> Z)
+         (mm_make : Z -> Z -> Z) (remove_key remove_value : Z -> Z) (st first last : Z),
+  it_eqb first last = false -> it_neqb first it_end = true -> it_eqb (it_next first) last = false ->
+  it_eqb first (mm_make (key_of first) 0) = false ->
+  Gen_WrapErase.erase_range it_eqb it_neqb it_end it_begin it_next ev_clear key_of key_count mm_make remove_key remove_value st first last
+  = if it_eqb first it_begin && it_eqb last it_end then Ok (it_end, ev_clear st) else Exn.
+Proof. exact gen_erase_range_mid_key_start. Qed.
+Print Assumptions C08_gen_wrapper_erase_mid_key_start.
+
+Theorem C08_gen_wrapper_erase_single_and_empty :
+  forall (it_eqb it_neqb : Z -> Z -> bool) (it_end it_begin : Z) (it_next ev_clear key_of key_count : Z -> Z)
+         (mm_make : Z -> Z -> Z) (remove_key remove_value : Z -> Z) (st first last : Z),
+  (it_eqb first last = true ->
+   Gen_WrapErase.erase_range it_eqb it_neqb it_end it_begin it_next ev_clear key_of key_count mm_make remove_key remove_value st first last = Ok (first, st)) /\
+  (it_eqb first last = false -> it_neqb first it_end = true -> it_eqb (it_next first) last = true ->
+   Gen_WrapErase.erase_range it_eqb it_neqb it_end it_begin it_next ev_clear key_of key_count mm_make remove_key remove_value st first last
+   = Ok (if key_count (key_of first) =? 1 then mm_make (remove_key (key_of first)) 0 else remove_value first, st)).
+Proof. exact gen_erase_range_single_and_empty. Qed.
+Print Assumptions C08_gen_wrapper_erase_single_and_empty.
+
+(* the REAL VersionKeeper::Check (exception and assertion mode): passes iff the counter still holds the stored value *)
+Theorem C08_gen_version_check :
+  forall (mem : Z -> Z) (ptr ver : Z),
+  Gen_VersionCheck.Check_self mem ptr ver = (if negb (ptr =? 0) && (mem ptr =? ver) then Ok tt else Exn) /\
+  Gen_VersionCheck_a.Check_self mem ptr ver = (if negb (ptr =? 0) && (mem ptr =? ver) then Ok tt else Stuck).
+Proof. exact gen_version_check. Qed.
+Print Assumptions C08_gen_version_check.
+
+(* an iterator that passes the generated check after a call still designates the same pair: no value array was touched *)
+Theorem C08_checked_iterator_designates_same_pair :
+  forall (M : Z) (c : vmm) (o : op) (mem : Z -> Z) (ptr : Z),
+  vlive c = true -> NoDup (keys (fst (fst c))) -> mem ptr = vver (vstep1 M c o) ->
+  Gen_VersionCheck.Check_self mem ptr (vver c) = Ok tt ->
+  (forall k e, find k (fst (fst c)) = Some e ->
+     exists e', find k (fst (fst (vstep1 M c o))) = Some e' /\ earr e' = earr e) /\
+  all_pairs (fst (fst (vstep1 M c o))) = all_pairs (fst (fst c)).
+Proof. exact checked_iterator_designates_same_pair. Qed.
+Print Assumptions C08_checked_iterator_designates_same_pair.
